@@ -41,442 +41,478 @@ type ssConnectOpts struct {
 	sendSeed     bool
 }
 
-func runC15(c *harness.Ctx) {
-	t := c.T
-	d := simos.NewDisk()
-	simos.Activate(d)
-	defer simos.Deactivate()
-	secret := make([]byte, 20)
-	c.Rand.Fill("cfg.secret", secret)
-	server := &obfsref.SSServer{Secret: secret}
-	issuedAt := map[*obfsref.SSTicket]time.Time{}
-	var cf base.ClientFactory
-	newFactory := func(what string) bool {
-		var err error
-		done := false
-		c.S.Go("c/factory", func() {
-			cf, err = transports.Get("scramblesuit").ClientFactory(ssDir)
-			done = true
-		})
-		c.S.Run(func() bool { return done }, time.Minute)
-		if err != nil {
-			c.Violate("C15/client-factory-failed", "%s: ClientFactory: %v", what, err)
-			return false
-		}
-		return true
-	}
-	if !newFactory("first start") {
-		return
-	}
-	var hist []string
-	nConn := 0
-	connect := func(o ssConnectOpts) bool {
-		nConn++
-		cn := fmt.Sprintf("c%d", nConn)
-		link := c.Net.NewLink(cn, "r")
-		for _, p := range []*simnet.Pipe{link.AB, link.BA} {
-			p.Policy = t.Draw("chunk", simnet.NumChunk)
-			p.Lazy = t.Draw("lazy", 4) == 3
-			p.MaxRead = []int{0, 0, 1, 7, 1448}[t.Draw("maxread", 5)]
-		}
-		ending := false
-		useSecret := secret
-		if o.wrongSecret {
-			useSecret = make([]byte, 20)
-			c.Rand.Fill("cfg.wrongsecret", useSecret)
-		}
-		// plans
-		mkPlan := func(l string) []int {
-			var p []int
-			for i, n := 0, t.Draw(l+".n", 4); i < n; i++ {
-				p = append(p, ssSizes[t.Draw(l+".sz", len(ssSizes))])
-			}
-			return p
-		}
-		cPlan, sPlan := mkPlan("cw"), mkPlan("sw")
-		var cTotal, sTotal int64
-		for _, n := range cPlan {
-			cTotal += int64(n)
-		}
-		for _, n := range sPlan {
-			sTotal += int64(n)
-		}
-		padLen := []int{0, 1, 100, obfsref.SSMaxPad - 1, obfsref.SSMaxPad}[t.Draw("spad", 5)]
-		if t.Draw("spadr", 2) == 1 {
-			padLen = t.Draw("spadv", obfsref.SSMaxPad+1)
-		}
-		splitSel := t.Draw("split", 400)
-		coalesceData := t.Draw("coalesce", 3) == 2 // first server data rides behind the reply
-		var dialConn net.Conn
-		var dialErr error
-		var dialDone bool
-		var dialTook time.Duration
-		var sawTicket *obfsref.SSTicket
-		var sawUDH, srvUp bool
-		var srvGot int64
-		var srvErr error
-		var cliGot int64
-		var cliErr error
-		var cliRdDone, cliWrDone, srvWrDone bool
-		var accepted *obfsref.SSHandshakeResult
-		var tamperedAt int64 = -1
+type ssWorld struct {
+	c        *harness.Ctx
+	d        *simos.Disk
+	secret   []byte
+	server   *obfsref.SSServer
+	issuedAt map[*obfsref.SSTicket]time.Time
+	cf       base.ClientFactory
+	hist     []string
+	nConn    int
+	// lenient: a fault was injected into the client's disk; stream verdicts of
+	// this connect are not judged (the process may die or fail mid-way)
+	lenient bool
+	// crashed is set when a simulated kill unwound a client task
+	crashed bool
+}
 
-		c.S.Go("r/accept"+cn, func() {
-			var buf []byte
-			tmp := make([]byte, 4096)
-			priv := make([]byte, 192)
-			c.Rand.Fill("ref.key", priv)
-			key := obfsref.NewUDH(priv, t.Draw("ralt", 2) == 1)
-			pad := make([]byte, padLen)
-			c.Rand.Fill("ref.pad", pad)
-			link.B.SetReadDeadline(time.Now().Add(90 * time.Second))
-			for accepted == nil {
-				n, err := link.B.Read(tmp)
-				buf = append(buf, tmp[:n]...)
+func newSSWorld(c *harness.Ctx) *ssWorld {
+	w := &ssWorld{c: c, d: simos.NewDisk(), issuedAt: map[*obfsref.SSTicket]time.Time{}}
+	simos.Activate(w.d)
+	w.secret = make([]byte, 20)
+	c.Rand.Fill("cfg.secret", w.secret)
+	w.server = &obfsref.SSServer{Secret: w.secret}
+	c.S.Recover = func(task string, r interface{}) bool {
+		if _, ok := r.(simos.Crash); ok {
+			w.crashed = true
+			return true
+		}
+		return false
+	}
+	return w
+}
+
+// newFactory starts a client "process": ClientFactory on the simulated disk.
+func (w *ssWorld) newFactory() error {
+	c := w.c
+	var err error
+	done := false
+	c.S.Go("c/factory", func() {
+		defer func() { done = true }()
+		w.cf, err = transports.Get("scramblesuit").ClientFactory(ssDir)
+	})
+	c.S.Run(func() bool { return done }, time.Minute)
+	return err
+}
+
+func (w *ssWorld) connect(o ssConnectOpts) bool {
+	c, t, d, secret, server, issuedAt := w.c, w.c.T, w.d, w.secret, w.server, w.issuedAt
+	_ = d
+	cf := w.cf
+
+	w.nConn++
+	cn := fmt.Sprintf("c%d", w.nConn)
+	link := c.Net.NewLink(cn, "r")
+	for _, p := range []*simnet.Pipe{link.AB, link.BA} {
+		p.Policy = t.Draw("chunk", simnet.NumChunk)
+		p.Lazy = t.Draw("lazy", 4) == 3
+		p.MaxRead = []int{0, 0, 1, 7, 1448}[t.Draw("maxread", 5)]
+	}
+	ending := false
+	useSecret := secret
+	if o.wrongSecret {
+		useSecret = make([]byte, 20)
+		c.Rand.Fill("cfg.wrongsecret", useSecret)
+	}
+	// plans
+	mkPlan := func(l string) []int {
+		var p []int
+		for i, n := 0, t.Draw(l+".n", 4); i < n; i++ {
+			p = append(p, ssSizes[t.Draw(l+".sz", len(ssSizes))])
+		}
+		return p
+	}
+	cPlan, sPlan := mkPlan("cw"), mkPlan("sw")
+	var cTotal, sTotal int64
+	for _, n := range cPlan {
+		cTotal += int64(n)
+	}
+	for _, n := range sPlan {
+		sTotal += int64(n)
+	}
+	padLen := []int{0, 1, 100, obfsref.SSMaxPad - 1, obfsref.SSMaxPad}[t.Draw("spad", 5)]
+	if t.Draw("spadr", 2) == 1 {
+		padLen = t.Draw("spadv", obfsref.SSMaxPad+1)
+	}
+	splitSel := t.Draw("split", 400)
+	coalesceData := t.Draw("coalesce", 3) == 2 // first server data rides behind the reply
+	var dialConn net.Conn
+	var dialErr error
+	var dialDone bool
+	var dialTook time.Duration
+	var sawTicket *obfsref.SSTicket
+	var sawUDH, srvUp bool
+	var srvGot int64
+	var srvErr error
+	var cliGot int64
+	var cliErr error
+	var cliRdDone, cliWrDone, srvWrDone bool
+	var accepted *obfsref.SSHandshakeResult
+	var tamperedAt int64 = -1
+
+	c.S.Go("r/accept"+cn, func() {
+		var buf []byte
+		tmp := make([]byte, 4096)
+		priv := make([]byte, 192)
+		c.Rand.Fill("ref.key", priv)
+		key := obfsref.NewUDH(priv, t.Draw("ralt", 2) == 1)
+		pad := make([]byte, padLen)
+		c.Rand.Fill("ref.pad", pad)
+		link.B.SetReadDeadline(time.Now().Add(90 * time.Second))
+		for accepted == nil {
+			n, err := link.B.Read(tmp)
+			buf = append(buf, tmp[:n]...)
+			if n > 0 {
+				r, aerr := server.Accept(buf, nowHour(), key, pad)
+				if aerr == nil {
+					accepted = r
+					break
+				}
+				if aerr != obfsref.ErrSSNeedMore {
+					srvErr = aerr
+					return
+				}
+			}
+			if err != nil {
+				srvErr = err
+				return
+			}
+		}
+		link.B.SetReadDeadline(time.Time{})
+		sess := accepted.Session
+		sawTicket = accepted.Ticket
+		sawUDH = accepted.Ticket == nil
+		_ = sawUDH
+		var first []byte
+		if accepted.Reply != nil {
+			reply := append([]byte(nil), accepted.Reply...)
+			switch o.tamperReply {
+			case 1:
+				reply[t.Draw("ty", 192)] ^= 1 << uint(t.Draw("tbit", 8))
+			case 2:
+				if padLen > 0 {
+					reply[192+t.Draw("tp", padLen)] ^= 1 << uint(t.Draw("tbit", 8))
+				} else {
+					reply[len(reply)-1] ^= 1
+				}
+			case 3:
+				reply[192+padLen+t.Draw("tm", 16)] ^= 1 << uint(t.Draw("tbit", 8))
+			case 4:
+				reply[192+padLen+16+t.Draw("tmac", 16)] ^= 1 << uint(t.Draw("tbit", 8))
+			}
+			// split point: every byte position from the end of the key to the end
+			// of the reply is a candidate; the tail (mark and MAC) is favoured
+			span := len(reply) - 192
+			var s int
+			switch {
+			case splitSel < 100:
+				s = len(reply) // unsplit
+			case splitSel < 300:
+				s = len(reply) - 33 + (splitSel-100)%34 // in or just before M_S | MAC_S
+			default:
+				s = 192 + (splitSel-300)*span/100
+			}
+			if s < 1 {
+				s = 1
+			}
+			c.Info["reply_len"], c.Info["split_at"] = len(reply), s
+			if s < len(reply) {
+				c.Feature("reply-split")
+				if s > len(reply)-32 {
+					c.Feature("reply-split-inside-mark-or-mac")
+				}
+				if s > len(reply)-16 {
+					c.Feature("reply-split-inside-MAC_S")
+				}
+				if _, err := link.B.Write(reply[:s]); err != nil {
+					return
+				}
+				c.S.Sleep(10 * time.Millisecond)
+				first = reply[s:]
+			} else {
+				first = reply
+			}
+		}
+		// post-handshake control packets
+		if o.issueTicket && o.tamperReply == 0 {
+			tk := &obfsref.SSTicket{Key: make([]byte, 32), Ticket: make([]byte, 112)}
+			c.Rand.Fill("ref.ticket", tk.Key)
+			c.Rand.Fill("ref.ticket", tk.Ticket)
+			server.Tickets = append(server.Tickets, tk)
+			issuedAt[tk] = time.Now()
+			first = append(first, sess.Packet(obfsref.SSFlagNewTicket, append(append([]byte{}, tk.Key...), tk.Ticket...), t.Draw("tkpad", 50))...)
+			c.Feature("ticket-issued")
+		}
+		if o.sendSeed {
+			seed := make([]byte, 32)
+			c.Rand.Fill("ref.seed", seed)
+			first = append(first, sess.Packet(obfsref.SSFlagPrngSeed, seed, 0)...)
+		}
+		srvUp = true
+		// reader
+		leftover := append([]byte(nil), buf[accepted.Consumed:]...)
+		c.S.Go("r/reader"+cn, func() {
+			rb := make([]byte, 8192)
+			for {
+				var n int
+				var err error
+				if leftover != nil {
+					// bytes that followed the handshake in the same reads (a ticket
+					// client does not wait for a reply before sending data)
+					n = copy(rb, leftover)
+					leftover = nil
+				} else {
+					n, err = link.B.Read(rb)
+				}
+				if ending {
+					return
+				}
 				if n > 0 {
-					r, aerr := server.Accept(buf, nowHour(), key, pad)
-					if aerr == nil {
-						accepted = r
-						break
+					pks, ferr := sess.Feed(rb[:n])
+					for _, pk := range pks {
+						if pk.Flags != obfsref.SSFlagPayload {
+							c.Violate("C15/client-sent-control-packet", "client sent packet with flags %#x", pk.Flags)
+							return
+						}
+						for i, b := range pk.Payload {
+							if b != pat(0, srvGot+int64(i)) {
+								c.Violate("C15/server-got-wrong-bytes", "reference server decoded byte %d differently from what the application wrote", srvGot+int64(i))
+								return
+							}
+						}
+						srvGot += int64(len(pk.Payload))
 					}
-					if aerr != obfsref.ErrSSNeedMore {
-						srvErr = aerr
+					if ferr != nil {
+						c.Violate("C15/server-cannot-decode", "%v opts %+v: reference server cannot authenticate a client packet after %d payload bytes (handshake via ticket: %v): %v", w.hist, o, srvGot, accepted.Ticket != nil, ferr)
 						return
 					}
 				}
 				if err != nil {
-					srvErr = err
 					return
 				}
 			}
-			link.B.SetReadDeadline(time.Time{})
-			sess := accepted.Session
-			sawTicket = accepted.Ticket
-			sawUDH = accepted.Ticket == nil
-			_ = sawUDH
-			var first []byte
-			if accepted.Reply != nil {
-				reply := append([]byte(nil), accepted.Reply...)
-				switch o.tamperReply {
-				case 1:
-					reply[t.Draw("ty", 192)] ^= 1 << uint(t.Draw("tbit", 8))
-				case 2:
-					if padLen > 0 {
-						reply[192+t.Draw("tp", padLen)] ^= 1 << uint(t.Draw("tbit", 8))
-					} else {
-						reply[len(reply)-1] ^= 1
-					}
-				case 3:
-					reply[192+padLen+t.Draw("tm", 16)] ^= 1 << uint(t.Draw("tbit", 8))
-				case 4:
-					reply[192+padLen+16+t.Draw("tmac", 16)] ^= 1 << uint(t.Draw("tbit", 8))
-				}
-				// split point: every byte position from the end of the key to the end
-				// of the reply is a candidate; the tail (mark and MAC) is favoured
-				span := len(reply) - 192
-				var s int
-				switch {
-				case splitSel < 100:
-					s = len(reply) // unsplit
-				case splitSel < 300:
-					s = len(reply) - 33 + (splitSel-100)%34 // in or just before M_S | MAC_S
-				default:
-					s = 192 + (splitSel-300)*span/100
-				}
-				if s < 1 {
-					s = 1
-				}
-				c.Info["reply_len"], c.Info["split_at"] = len(reply), s
-				if s < len(reply) {
-					c.Feature("reply-split")
-					if s > len(reply)-32 {
-						c.Feature("reply-split-inside-mark-or-mac")
-					}
-					if s > len(reply)-16 {
-						c.Feature("reply-split-inside-MAC_S")
-					}
-					if _, err := link.B.Write(reply[:s]); err != nil {
-						return
-					}
-					c.S.Sleep(10 * time.Millisecond)
-					first = reply[s:]
-				} else {
-					first = reply
-				}
-			}
-			// post-handshake control packets
-			if o.issueTicket && o.tamperReply == 0 {
-				tk := &obfsref.SSTicket{Key: make([]byte, 32), Ticket: make([]byte, 112)}
-				c.Rand.Fill("ref.ticket", tk.Key)
-				c.Rand.Fill("ref.ticket", tk.Ticket)
-				server.Tickets = append(server.Tickets, tk)
-				issuedAt[tk] = time.Now()
-				first = append(first, sess.Packet(obfsref.SSFlagNewTicket, append(append([]byte{}, tk.Key...), tk.Ticket...), t.Draw("tkpad", 50))...)
-				c.Feature("ticket-issued")
-			}
-			if o.sendSeed {
-				seed := make([]byte, 32)
-				c.Rand.Fill("ref.seed", seed)
-				first = append(first, sess.Packet(obfsref.SSFlagPrngSeed, seed, 0)...)
-			}
-			srvUp = true
-			// reader
-			leftover := append([]byte(nil), buf[accepted.Consumed:]...)
-			c.S.Go("r/reader"+cn, func() {
-				rb := make([]byte, 8192)
-				for {
-					var n int
-					var err error
-					if leftover != nil {
-						// bytes that followed the handshake in the same reads (a ticket
-						// client does not wait for a reply before sending data)
-						n = copy(rb, leftover)
-						leftover = nil
-					} else {
-						n, err = link.B.Read(rb)
-					}
-					if ending {
-						return
-					}
-					if n > 0 {
-						pks, ferr := sess.Feed(rb[:n])
-						for _, pk := range pks {
-							if pk.Flags != obfsref.SSFlagPayload {
-								c.Violate("C15/client-sent-control-packet", "client sent packet with flags %#x", pk.Flags)
-								return
-							}
-							for i, b := range pk.Payload {
-								if b != pat(0, srvGot+int64(i)) {
-									c.Violate("C15/server-got-wrong-bytes", "reference server decoded byte %d differently from what the application wrote", srvGot+int64(i))
-									return
-								}
-							}
-							srvGot += int64(len(pk.Payload))
-						}
-						if ferr != nil {
-							c.Violate("C15/server-cannot-decode", "%v opts %+v: reference server cannot authenticate a client packet after %d payload bytes (handshake via ticket: %v): %v", hist, o, srvGot, accepted.Ticket != nil, ferr)
-							return
-						}
-					}
-					if err != nil {
-						return
-					}
-				}
-			})
-			// writer
-			var off int64
-			pending := first
-			flipped := false
-			for i, n := range append([]int{-1}, sPlan...) {
-				var out []byte
-				if i == 0 {
-					if coalesceData && len(sPlan) > 0 {
-						continue // the first data write carries `pending`
-					}
-					out = pending
-					pending = nil
-				} else {
-					out = pending
-					pending = nil
-					rem := n
-					for rem > 0 || n == 0 {
-						k := rem
-						if k > obfsref.SSMaxPayload {
-							k = obfsref.SSMaxPayload
-						}
-						if k > 1 && t.Draw("ssplit", 3) == 2 {
-							k = 1 + t.Draw("ssplitn", k)
-						}
-						buf := make([]byte, k)
-						for j := range buf {
-							buf[j] = pat(1, off+int64(j))
-						}
-						pad := 0
-						if t.Draw("spktpad", 3) == 2 {
-							pad = t.Draw("spktpadn", obfsref.SSMaxPayload-k+1)
-						}
-						pkt := sess.Packet(obfsref.SSFlagPayload, buf, pad)
-						if o.tamperPacket && !flipped && off+int64(k) > sTotal/2 {
-							flipped = true
-							tamperedAt = off
-							pkt[t.Draw("pflip", len(pkt))] ^= 1 << uint(t.Draw("pbit", 8))
-							c.Feature("packet-bit-flipped")
-						}
-						out = append(out, pkt...)
-						off += int64(k)
-						rem -= k
-						if n == 0 {
-							break
-						}
-					}
-				}
-				if len(out) > 0 {
-					if _, err := link.B.Write(out); err != nil {
-						return
-					}
-				}
-			}
-			if pending != nil {
-				link.B.Write(pending)
-			}
-			if flipped {
-				// valid traffic continues for more than a maximum packet, so that a
-				// damaged length field cannot hide behind "still waiting for data"
-				var tail []byte
-				for i := 0; i < 3; i++ {
-					tail = append(tail, sess.Packet(obfsref.SSFlagPayload, nil, obfsref.SSMaxPayload)...)
-				}
-				link.B.Write(tail)
-			}
-			srvWrDone = true
 		})
-		c.S.Go(cn+"/dial", func() {
-			t0 := time.Now()
-			args := &pt.Args{}
-			args.Add("password", base32.StdEncoding.EncodeToString(useSecret))
-			pa, err := cf.ParseArgs(args)
-			if err != nil {
-				dialErr, dialDone = err, true
-				return
-			}
-			dialConn, dialErr = cf.Dial("tcp", "10.0.0.2:443", func(string, string) (net.Conn, error) { return link.A, nil }, pa)
-			dialTook, dialDone = time.Since(t0), true
-			if dialErr != nil {
-				return
-			}
-			conn := dialConn
-			c.S.Go(cn+"/reader", func() {
-				rb := make([]byte, []int{8192, 1, 100, 1427}[t.Draw("crd", 4)])
-				for {
-					n, err := conn.Read(rb)
-					if ending {
-						return
+		// writer
+		var off int64
+		pending := first
+		flipped := false
+		for i, n := range append([]int{-1}, sPlan...) {
+			var out []byte
+			if i == 0 {
+				if coalesceData && len(sPlan) > 0 {
+					continue // the first data write carries `pending`
+				}
+				out = pending
+				pending = nil
+			} else {
+				out = pending
+				pending = nil
+				rem := n
+				for rem > 0 || n == 0 {
+					k := rem
+					if k > obfsref.SSMaxPayload {
+						k = obfsref.SSMaxPayload
 					}
-					for i := 0; i < n; i++ {
-						if rb[i] != pat(1, cliGot+int64(i)) {
-							c.Violate("C15/altered-data-delivered", "client Read returned byte %d that the server did not send (server wrote %d bytes, tampered packet started at %d)", cliGot+int64(i), sTotal, tamperedAt)
-							return
-						}
+					if k > 1 && t.Draw("ssplit", 3) == 2 {
+						k = 1 + t.Draw("ssplitn", k)
 					}
-					cliGot += int64(n)
-					if tamperedAt >= 0 && cliGot > tamperedAt {
-						c.Violate("C15/delivered-past-tampered-packet", "client delivered %d bytes although the packet starting at %d was modified", cliGot, tamperedAt)
-						return
+					buf := make([]byte, k)
+					for j := range buf {
+						buf[j] = pat(1, off+int64(j))
 					}
-					if err != nil {
-						cliErr, cliRdDone = err, true
-						return
+					pad := 0
+					if t.Draw("spktpad", 3) == 2 {
+						pad = t.Draw("spktpadn", obfsref.SSMaxPayload-k+1)
+					}
+					pkt := sess.Packet(obfsref.SSFlagPayload, buf, pad)
+					if o.tamperPacket && !flipped && off+int64(k) > sTotal/2 {
+						flipped = true
+						tamperedAt = off
+						pkt[t.Draw("pflip", len(pkt))] ^= 1 << uint(t.Draw("pbit", 8))
+						c.Feature("packet-bit-flipped")
+					}
+					out = append(out, pkt...)
+					off += int64(k)
+					rem -= k
+					if n == 0 {
+						break
 					}
 				}
-			})
-			var off int64
-			for _, n := range cPlan {
-				buf := make([]byte, n)
-				for j := range buf {
-					buf[j] = pat(0, off+int64(j))
+			}
+			if len(out) > 0 {
+				if _, err := link.B.Write(out); err != nil {
+					return
 				}
-				k, err := conn.Write(buf)
+			}
+		}
+		if pending != nil {
+			link.B.Write(pending)
+		}
+		if flipped {
+			// valid traffic continues for more than a maximum packet, so that a
+			// damaged length field cannot hide behind "still waiting for data"
+			var tail []byte
+			for i := 0; i < 3; i++ {
+				tail = append(tail, sess.Packet(obfsref.SSFlagPayload, nil, obfsref.SSMaxPayload)...)
+			}
+			link.B.Write(tail)
+		}
+		srvWrDone = true
+	})
+	c.S.Go(cn+"/dial", func() {
+		t0 := time.Now()
+		args := &pt.Args{}
+		args.Add("password", base32.StdEncoding.EncodeToString(useSecret))
+		pa, err := cf.ParseArgs(args)
+		if err != nil {
+			dialErr, dialDone = err, true
+			return
+		}
+		dialConn, dialErr = cf.Dial("tcp", "10.0.0.2:443", func(string, string) (net.Conn, error) { return link.A, nil }, pa)
+		dialTook, dialDone = time.Since(t0), true
+		if dialErr != nil {
+			return
+		}
+		conn := dialConn
+		c.S.Go(cn+"/reader", func() {
+			rb := make([]byte, []int{8192, 1, 100, 1427}[t.Draw("crd", 4)])
+			for {
+				n, err := conn.Read(rb)
 				if ending {
 					return
 				}
-				if err != nil || k != n {
-					c.Violate("C15/write-failed", "client Write(%d) = (%d, %v)", n, k, err)
+				for i := 0; i < n; i++ {
+					if rb[i] != pat(1, cliGot+int64(i)) {
+						c.Violate("C15/altered-data-delivered", "client Read returned byte %d that the server did not send (server wrote %d bytes, tampered packet started at %d)", cliGot+int64(i), sTotal, tamperedAt)
+						return
+					}
+				}
+				cliGot += int64(n)
+				if tamperedAt >= 0 && cliGot > tamperedAt {
+					c.Violate("C15/delivered-past-tampered-packet", "client delivered %d bytes although the packet starting at %d was modified", cliGot, tamperedAt)
 					return
 				}
-				off += int64(n)
+				if err != nil {
+					cliErr, cliRdDone = err, true
+					return
+				}
 			}
-			cliWrDone = true
 		})
-		expectFail := o.wrongSecret || o.tamperReply != 0
-		desc := fmt.Sprintf("connect#%d(pad %d", nConn, padLen)
-		if o.wrongSecret {
-			desc += ", wrong secret"
-		}
-		if o.tamperReply != 0 {
-			desc += fmt.Sprintf(", reply tampered in field %d", o.tamperReply)
-		}
-		if o.tamperPacket {
-			desc += ", data packet tampered"
-		}
-		desc += ")"
-		hist = append(hist, desc)
-		stop := c.S.Run(func() bool {
-			if !dialDone {
-				return false
+		var off int64
+		for _, n := range cPlan {
+			buf := make([]byte, n)
+			for j := range buf {
+				buf[j] = pat(0, off+int64(j))
 			}
-			if dialErr != nil {
-				return true
+			k, err := conn.Write(buf)
+			if ending {
+				return
 			}
-			if o.tamperPacket && sTotal > 0 {
-				return cliRdDone
+			if err != nil || k != n {
+				c.Violate("C15/write-failed", "client Write(%d) = (%d, %v)", n, k, err)
+				return
 			}
-			return srvUp && cliWrDone && srvWrDone && cliGot == sTotal && srvGot == cTotal
-		}, 10*time.Minute)
-		defer func() {
-			ending = true
-			link.A.Close()
-			link.B.Close()
-			c.S.Run(func() bool { return false }, time.Second)
-		}()
-		if c.S.Violated() {
+			off += int64(n)
+		}
+		cliWrDone = true
+	})
+	expectFail := o.wrongSecret || o.tamperReply != 0
+	desc := fmt.Sprintf("connect#%d(pad %d", w.nConn, padLen)
+	if o.wrongSecret {
+		desc += ", wrong secret"
+	}
+	if o.tamperReply != 0 {
+		desc += fmt.Sprintf(", reply tampered in field %d", o.tamperReply)
+	}
+	if o.tamperPacket {
+		desc += ", data packet tampered"
+	}
+	desc += ")"
+	w.hist = append(w.hist, desc)
+	stop := c.S.Run(func() bool {
+		if !dialDone {
 			return false
 		}
-		via := "uniformdh"
-		if sawTicket != nil {
-			via = "ticket"
-			c.Feature("ticket-handshake-used")
+		if dialErr != nil {
+			return true
 		}
-		hist[len(hist)-1] += "=" + via
-		switch {
-		case expectFail && sawTicket != nil:
-			// a ticket handshake involves neither the password nor a server reply
-			if dialErr != nil {
-				c.Violate("C15/ticket-dial-failed", "%v: Dial with a valid ticket failed: %v", hist, dialErr)
-				return false
-			}
-		case expectFail:
-			if !dialDone {
-				c.Violate("C15/dial-never-returned", "%v: Dial still pending after 10 virtual minutes", hist)
-				return false
-			}
-			if dialErr == nil {
-				c.Violate("C15/completed-with-bad-handshake", "%v: Dial completed although the secret was wrong / the reply was modified", hist)
-				return false
-			}
-			if dialTook > 61*time.Second {
-				c.Violate("C15/late-failure", "%v: Dial failed only after %v", hist, dialTook)
-				return false
-			}
-		default:
-			if o.tamperPacket && dialDone && dialErr != nil && tamperedAt >= 0 {
-				// the modified packet rode behind the handshake reply and was
-				// rejected while the handshake call was still in progress
-				c.Feature("tampered-packet-rejected-during-dial")
-				return true
-			}
-			if !dialDone || dialErr != nil {
-				c.Violate("C15/handshake-failed", "%v (reply %v bytes split at %v): Dial against a conforming server: done=%v err=%v; server side: %v", hist, c.Info["reply_len"], c.Info["split_at"], dialDone, dialErr, srvErr)
-				return false
-			}
-			if o.tamperPacket && sTotal > 0 {
-				if !cliRdDone {
-					c.Violate("C15/tampering-not-reported", "%v: a modified packet was delivered to the client and Read reported no error", hist)
-					return false
-				}
-				if cliErr == io.EOF {
-					c.Violate("C15/tampering-reported-as-eof", "%v: a modified packet surfaced as plain EOF", hist)
-					return false
-				}
-				return true
-			}
-			if stop == sim.StopTime {
-				c.Violate("C15/stalled-bytes", "%v: quiet for 10 virtual minutes and incomplete: client read %d of %d, server decoded %d of %d (client writer done %v)", hist, cliGot, sTotal, srvGot, cTotal, cliWrDone)
-				return false
-			}
+		if o.tamperPacket && sTotal > 0 {
+			return cliRdDone
 		}
+		return srvUp && cliWrDone && srvWrDone && cliGot == sTotal && srvGot == cTotal
+	}, 10*time.Minute)
+	if stop == sim.StopCond && dialErr == nil {
+		// let control packets still in flight (ticket, seed) reach the client
+		c.S.Run(func() bool { return false }, time.Second)
+	}
+	defer func() {
+		ending = true
+		link.A.Close()
+		link.B.Close()
+		c.S.Run(func() bool { return false }, time.Second)
+	}()
+	if c.S.Violated() {
+		return false
+	}
+	if w.lenient {
 		return true
 	}
+	via := "uniformdh"
+	if sawTicket != nil {
+		via = "ticket"
+		c.Feature("ticket-handshake-used")
+	}
+	w.hist[len(w.hist)-1] += "=" + via
+	switch {
+	case expectFail && sawTicket != nil:
+		// a ticket handshake involves neither the password nor a server reply
+		if dialErr != nil {
+			c.Violate("C15/ticket-dial-failed", "%v: Dial with a valid ticket failed: %v", w.hist, dialErr)
+			return false
+		}
+	case expectFail:
+		if !dialDone {
+			c.Violate("C15/dial-never-returned", "%v: Dial still pending after 10 virtual minutes", w.hist)
+			return false
+		}
+		if dialErr == nil {
+			c.Violate("C15/completed-with-bad-handshake", "%v: Dial completed although the secret was wrong / the reply was modified", w.hist)
+			return false
+		}
+		if dialTook > 61*time.Second {
+			c.Violate("C15/late-failure", "%v: Dial failed only after %v", w.hist, dialTook)
+			return false
+		}
+	default:
+		if o.tamperPacket && dialDone && dialErr != nil && tamperedAt >= 0 {
+			// the modified packet rode behind the handshake reply and was
+			// rejected while the handshake call was still in progress
+			c.Feature("tampered-packet-rejected-during-dial")
+			return true
+		}
+		if !dialDone || dialErr != nil {
+			c.Violate("C15/handshake-failed", "%v (reply %v bytes split at %v): Dial against a conforming server: done=%v err=%v; server side: %v", w.hist, c.Info["reply_len"], c.Info["split_at"], dialDone, dialErr, srvErr)
+			return false
+		}
+		if o.tamperPacket && sTotal > 0 {
+			if !cliRdDone {
+				c.Violate("C15/tampering-not-reported", "%v: a modified packet was delivered to the client and Read reported no error", w.hist)
+				return false
+			}
+			if cliErr == io.EOF {
+				c.Violate("C15/tampering-reported-as-eof", "%v: a modified packet surfaced as plain EOF", w.hist)
+				return false
+			}
+			return true
+		}
+		if stop == sim.StopTime {
+			c.Violate("C15/stalled-bytes", "%v: quiet for 10 virtual minutes and incomplete: client read %d of %d, server decoded %d of %d (client writer done %v)", w.hist, cliGot, sTotal, srvGot, cTotal, cliWrDone)
+			return false
+		}
+	}
+	return true
+}
 
+func runC15(c *harness.Ctx) {
+	t := c.T
+	w := newSSWorld(c)
+	defer simos.Deactivate()
+	d, server := w.d, w.server
+	if err := w.newFactory(); err != nil {
+		c.Violate("C15/client-factory-failed", "first start: ClientFactory: %v", err)
+		return
+	}
 	// ---- history
 	nSteps := 1 + t.Draw("nsteps", 6)
 	for i := 0; i < nSteps && !c.S.Violated(); i++ {
@@ -491,32 +527,33 @@ func runC15(c *harness.Ctx) {
 			case 7:
 				o.tamperPacket = true
 			}
-			if !connect(o) {
+			if !w.connect(o) {
 				return
 			}
 		case 4:
 			c.S.Sleep(7*24*time.Hour + time.Second)
-			hist = append(hist, "advance 7d+1s")
+			w.hist = append(w.hist, "advance 7d+1s")
 		case 5:
 			d.Delete(ssDir + "/scramblesuit_tickets.json")
-			hist = append(hist, "delete ticket file")
+			w.hist = append(w.hist, "delete ticket file")
 		case 6:
-			hist = append(hist, "restart")
-			if !newFactory("restart after " + fmt.Sprint(hist)) {
+			w.hist = append(w.hist, "restart")
+			if err := w.newFactory(); err != nil {
+				c.Violate("C15/client-factory-failed", "%v: ClientFactory: %v", w.hist, err)
 				return
 			}
 		case 7:
 			c.S.Sleep(time.Duration(1+t.Draw("hrs", 100)) * time.Hour)
-			hist = append(hist, "advance hours")
+			w.hist = append(w.hist, "advance hours")
 		}
 		// tickets: at most one use each, never after expiry
 		for _, tk := range server.Tickets {
 			if tk.Uses > 1 {
-				c.Violate("C15/ticket-reused", "%v: the reference server saw the same session ticket in %d handshakes", hist, tk.Uses)
+				c.Violate("C15/ticket-reused", "%v: the reference server saw the same session ticket in %d handshakes", w.hist, tk.Uses)
 				return
 			}
 		}
 	}
-	c.Info["history"] = hist
-	c.Reached, c.Nontrivial = true, nConn > 0
+	c.Info["history"] = w.hist
+	c.Reached, c.Nontrivial = true, w.nConn > 0
 }
